@@ -114,7 +114,8 @@ def doRun (a : Json) : Except String Json := do
   -- the final world is recomputed for the trace (cheap: cases are small)
   let final := ops.foldl (fun (p : Store × World) op => let r := step sh p.1 op p.2; (r.1, r.2.1)) (st, w)
   pure <| J.obj [("steps", Json.arr (runOps sh st w ops []).toArray),
-                 ("trace", Json.arr (final.2.trace.reverse.map fun s => encodeConds s.objs).toArray)]
+                 ("trace", Json.arr (final.2.trace.reverse.map fun s => J.obj [("api", encodeConds s.api.objs),
+                    ("ext", match s.voided with | some n => J.hex n | none => Json.null)]).toArray)]
 
 /-- one observation: the operation, the cache before it, whether the store was stopped, the API after each call
     it made, the API when it returned, its answer -/
@@ -125,17 +126,25 @@ def judgeObs (sh : Str → Nat) : Cfg → Ghost → Nat → List Json → Except
     let st : Store := { cfg := cfg, loc := ← decodeLoc o "loc", stopped := ← J.getBool o "stopped" }
     let res ← decodeRes (← J.getStr o "res")
     let pts ← (← J.getArr o "points").toList.mapM fun p => do
-      pure ({ objs := ← (← p.getArr?).toList.mapM decodeCond, nextRv := 0 } : Api)
+      let ext ← match J.optObj p "ext" with
+        | some e => do pure (some (← J.asHex e))
+        | none => pure none
+      pure (({ objs := ← decodeConds p "api", nextRv := 0 } : Api), ext)
     let fin : Api := { objs := ← decodeConds o "api", nextRv := 0 }
     let g1 := ghostPre sh st op g
     let bad (pt : Nat) (gg : Ghost) (api : Api) : Json :=
       match firstBroken gg api with
       | some (n, kind) => J.obj [("ok", J.bool false), ("at", J.nat i), ("point", J.nat pt), ("name", J.hex n), ("kind", J.nat kind)]
       | none => J.obj [("ok", J.bool false), ("at", J.nat i), ("point", J.nat pt), ("name", J.hex []), ("kind", J.nat 9)]
-    match (pts.zipIdx).find? (fun p => ! judge g1 p.1) with
-    | some p => pure (bad p.2 g1 p.1)
+    -- the claims in force at every crash point of the operation: an object somebody else removed is no longer claimed
+    let gs := pts.foldl (fun (acc : List Ghost × Ghost) p =>
+      let g' := match p.2 with | some n => acc.2.unhold n | none => acc.2
+      (g' :: acc.1, g')) ([], g1)
+    let g1' := gs.2
+    match ((gs.1.reverse.zip (pts.map (·.1))).zipIdx).find? (fun p => ! judge p.1.1 p.1.2) with
+    | some p => pure (bad p.2 p.1.1 p.1.2)
     | none =>
-      let g2 := ghostPost sh st op res g1
+      let g2 := ghostPost sh st op res g1'
       if ! judge g2 fin then pure (bad pts.length g2 fin)
       else
         let cfg' := match op with
